@@ -17,9 +17,11 @@ def main(tier, replay=None):
                       required=("InitPick", "LoopPick", "Complete", "Finish", "Kill", "Restart"))
         S.model_check(sc.chk, sc.work, "N4W2S3_frac", {"N": 4, "Workers": 2, "Steps": 3, "TrackFrac": True, "MaxPn": 12}, INV, [], timeout=3000)
     sc.replay_behaviours("N3W2S4_kill", {"N": 3, "Workers": 2, "Steps": 4, "MaxPn": 14, "MaxRestarts": 1, "MoreSteps": 2}, 120 if q else 1500, 20)
-    sc.replay_behaviours("N4W3S5", {"N": 4, "Workers": 3, "Steps": 5, "MaxPn": 16}, 120 if q else 1500, 20)
+    sc.replay_behaviours("N4W3S6", {"N": 4, "Workers": 3, "Steps": 6, "MaxPn": 18}, 300 if q else 2500, 22)
+    sc.replay_behaviours("N5W4S7", {"N": 5, "Workers": 4, "Steps": 7, "MaxPn": 22}, 200 if q else 2500, 26)
     specs = S.standard_random_specs(tier, sc.chk.seed + 9, [3, 4, 5] if q else [3, 4, 5, 6],
                                     lambda n: list(range(1, n)), 40 if q else 150, 32 if q else 320, restarts=True, moves_mix=True)
+    specs += S.standard_random_specs(tier, sc.chk.seed + 10, [5, 6], lambda n: [n - 2, n - 1], 80 if q else 200, 32 if q else 160)
     sc.random_runs(specs)
     sc.chk.assumptions += ["floating-point fractional weights are read as the nearest rational with denominator <= 10^6 (checked to 1e-9); "
                            "the data file and restart.toml are parsed from their 20-digit decimal strings"]
